@@ -25,6 +25,8 @@ def dispatch (j : Json) : R Json := do
   | "xml_import" => opXmlImport j
   | "xml_roundtrip" => opXmlRoundtrip j
   | "xml_cache" => opXmlCache j
+  | "cli" => opCli j
+  | "cli_digest" => opCliDigest j
   | "events" => opEvents j
   | "grad" => opGrad j
   | "prob" => opProb j
